@@ -1019,7 +1019,125 @@ Qed.
 Theorem build_scope_wf (L : layers) : scope_wf (build L).
 Proof. eapply Rg_scope_wf. apply build_Rg_m. Qed.
 
+(** ** Presence, not truthiness, decides *)
+
+Lemma assoc_in_keys (k : str) (d : dict) : In k (keys d) -> exists v, assoc k d = Some v.
+Proof.
+  induction d as [|[k' v'] d IH]; simpl; [intros []|]. intros [E|H].
+  - subst. rewrite str_eqb_refl. eauto.
+  - destruct (str_eqb k k'); eauto.
+Qed.
+
+Lemma assoc_some_in_keys (k : str) (d : dict) v : assoc k d = Some v -> In k (keys d).
+Proof.
+  induction d as [|[k' v'] d IH]; simpl; [discriminate|].
+  destruct (str_eqb k k') eqn:E; [apply str_eqb_eq in E; auto|auto].
+Qed.
+
+(** [BuiltIn] as a two-entry mapping. *)
+Definition builtin_dict : dict := [(s_now, Now); (s_today, Today)].
+
+Lemma assoc_builtin_dict k : assoc k builtin_dict = builtin_get k.
+Proof. unfold builtin_dict, builtin_get. simpl. destruct (str_eqb k s_now), (str_eqb k s_today); reflexivity. Qed.
+
+(** The eight layers in lookup order, as mappings. *)
+Definition layer_list (L : layers) : list dict :=
+  l_blocks L ++ [l_locals L; w_args (l_world L); w_matter (l_world L); w_tg (l_world L);
+                 w_eg (l_world L); builtin_dict; l_counters L].
+
+Lemma lookup_layer_list (L : layers) k : NoDup (keys (w_tg (l_world L))) ->
+  st_lookup (build L) k = first_some (map (assoc k) (layer_list L)).
+Proof.
+  intro ND. rewrite (lookup_precedence L k ND). unfold layer_list. rewrite map_app. cbn [map].
+  rewrite assoc_builtin_dict. reflexivity.
+Qed.
+
+(** The lookup returns the binding of the FIRST layer that binds the name —
+    whatever value it binds it to (nil, false, 0, '', [], {} are values like
+    any other: [D] is arbitrary and nothing inspects it). *)
+Theorem lookup_first_binder (L : layers) k pre d post :
+  NoDup (keys (w_tg (l_world L))) ->
+  layer_list L = pre ++ d :: post ->
+  (forall d', In d' pre -> ~ In k (keys d')) ->
+  In k (keys d) ->
+  st_lookup (build L) k = assoc k d /\ exists v, assoc k d = Some v.
+Proof.
+  intros ND E Hpre Hd. rewrite (lookup_layer_list L k ND), E, map_app, first_some_app.
+  destruct (assoc_in_keys k d Hd) as [v Hv].
+  match goal with |- match ?X with _ => _ end = _ /\ _ => assert (Hn : X = None) end.
+  { clear E. induction pre as [|p pre IH]; simpl; [reflexivity|].
+    rewrite (assoc_none_not_in k p) by (apply Hpre; left; reflexivity).
+    apply IH. intros d' H. apply Hpre. right. exact H. }
+  rewrite Hn. simpl. rewrite Hv. split; [reflexivity|eauto].
+Qed.
+
+(** A name is undefined exactly when no layer binds it. *)
+Theorem lookup_none_iff_unbound (L : layers) k :
+  NoDup (keys (w_tg (l_world L))) ->
+  (st_lookup (build L) k = None <-> forall d, In d (layer_list L) -> ~ In k (keys d)).
+Proof.
+  intro ND. rewrite (lookup_layer_list L k ND). generalize (layer_list L). intro l.
+  induction l as [|d l IH]; simpl.
+  - split; [intros _ d []|reflexivity].
+  - destruct (assoc k d) eqn:E.
+    + split; [discriminate|]. intro H. exfalso. apply (H d (or_introl eq_refl)).
+      eapply assoc_some_in_keys. exact E.
+    + rewrite IH. split.
+      * intros H d' [<-|H']; [|apply H; exact H']. intro Hin.
+        destruct (assoc_in_keys k d Hin) as [v Hv]. congruence.
+      * intros H d' H'. apply H. right. exact H'.
+Qed.
+
 End Proofs.
+
+(** * Which layer wins does not depend on the values *)
+
+Definition map_value {D D' : Type} (f : D -> D') (v : value D) : value D' :=
+  match v with Data d => Data (f d) | Int z => Int z | Now => Now | Today => Today end.
+
+Definition map_dict {D D' : Type} (f : D -> D') (d : dict D) : dict D' :=
+  map (fun kv => (fst kv, map_value f (snd kv))) d.
+
+Definition map_layers {D D' : Type} (f : D -> D') (L : layers D) : layers D' :=
+  {| l_blocks := map (map_dict f) (l_blocks L);
+     l_locals := map_dict f (l_locals L);
+     l_counters := map_dict f (l_counters L);
+     l_world := {| w_eg := map_dict f (w_eg (l_world L)); w_tg := map_dict f (w_tg (l_world L));
+                   w_matter := map_dict f (w_matter (l_world L));
+                   w_args := map_dict f (w_args (l_world L)) |} |}.
+
+Lemma keys_map_dict {D D'} (f : D -> D') (d : dict D) : keys (map_dict f d) = keys d.
+Proof. unfold keys, map_dict. rewrite map_map. reflexivity. Qed.
+
+Lemma assoc_map_dict {D D'} (f : D -> D') (d : dict D) k :
+  assoc k (map_dict f d) = option_map (map_value f) (assoc k d).
+Proof.
+  induction d as [|[k' v] d IH]; simpl; [reflexivity|].
+  destruct (str_eqb k k'); [reflexivity|exact IH].
+Qed.
+
+Lemma first_some_option_map {A B} (g : A -> B) (l : list (option A)) :
+  first_some (map (option_map g) l) = option_map g (first_some l).
+Proof. induction l as [|[a|] l IH]; simpl; auto. Qed.
+
+(** Replace every data value by any other (for instance all of them by one
+    "nil" token): each name still resolves in the same layer, to the image of
+    what it resolved to.  No lookup ever looks at a value. *)
+Theorem lookup_value_independent {D D' : Type} (f : D -> D') (L : layers D) k :
+  NoDup (keys (w_tg (l_world L))) ->
+  st_lookup (build (map_layers f L)) k = option_map (map_value f) (st_lookup (build L) k).
+Proof.
+  intro ND.
+  rewrite (lookup_precedence L k ND).
+  rewrite (lookup_precedence (map_layers f L) k)
+    by (simpl; rewrite keys_map_dict; exact ND).
+  rewrite <- first_some_option_map. f_equal. simpl.
+  rewrite !map_app, !map_map. f_equal.
+  - apply map_ext. intro d. apply assoc_map_dict.
+  - simpl. rewrite !assoc_map_dict. repeat f_equal.
+    unfold builtin_get. destruct (str_eqb k s_now); [reflexivity|].
+    destruct (str_eqb k s_today); reflexivity.
+Qed.
 
 (** * Non-vacuity: the hypotheses are satisfiable by non-trivial states, the
       guards are needed *)
@@ -1120,3 +1238,22 @@ Example ex_copy :
   /\ st_lookup (ctx_copy (build (ex_layers 0)) [(ex_x, Data 7)]) ex_x = Some (Data 7)
   /\ st_lookup (ctx_copy (st_push (ctx_copy (build (ex_layers 0)) [(ex_x, Data 7)]) []) []) ex_x = None.
 Proof. vm_compute. repeat split. Qed.
+
+(** A "nil" token (900) bound in a higher layer wins over a real value in a
+    lower one, in every position; collapsing all values to one token changes
+    nothing about which layer answers. *)
+Example ex_nil_binding_wins :
+  let nil_ : value N := Data 900 in
+  let Lx (b l : dict N) (a m t e : dict N) : layers N :=
+    {| l_blocks := [b]; l_locals := l; l_counters := [];
+       l_world := {| w_eg := e; w_tg := t; w_matter := m; w_args := a |} |} in
+  let x1 v : dict N := [(ex_x, v)] in
+  map (fun L => st_lookup (build L) ex_x)
+    [Lx (x1 nil_) (x1 (Data 2)) [] [] [] [];
+     Lx [] (x1 nil_) (x1 (Data 3)) [] [] [];
+     Lx [] [] (x1 nil_) [] (x1 (Data 5)) [];
+     Lx [] [] [] (x1 nil_) (x1 (Data 5)) (x1 (Data 6));
+     Lx [] [] [] [] (x1 nil_) (x1 (Data 6));
+     Lx [] [] [] [] [] (x1 nil_)]
+  = [Some nil_; Some nil_; Some nil_; Some nil_; Some nil_; Some nil_].
+Proof. vm_compute. reflexivity. Qed.
